@@ -121,6 +121,8 @@ pub struct Server {
     client_events: event_queue::EventQueue,
 
     time_base: time::Instant,
+    #[cfg(uflow_verif)]
+    verif_t0_ms: u64,
 
     events_out: Vec<Event>,
 }
@@ -149,6 +151,8 @@ impl Server {
             client_events: event_queue::EventQueue::new(),
 
             time_base: time::Instant::now(),
+            #[cfg(uflow_verif)]
+            verif_t0_ms: crate::verif::now_ms(),
 
             events_out: Vec::new(),
         })
@@ -220,6 +224,8 @@ impl Server {
     }
 
     fn now_ms(&self) -> u64 {
+        #[cfg(uflow_verif)]
+        if crate::verif::clock_enabled() { return crate::verif::now_ms().saturating_sub(self.verif_t0_ms); }
         let now = time::Instant::now();
         (now - self.time_base).as_millis() as u64
     }
@@ -301,6 +307,8 @@ impl Server {
         // Handshake appears valid, send reply
 
         let local_nonce = rand::random::<u32>();
+        #[cfg(uflow_verif)]
+        let local_nonce = crate::verif::nonce_u32(local_nonce);
 
         let reply = frame::Frame::HandshakeSynAckFrame(frame::HandshakeSynAckFrame {
             nonce_ack: handshake.nonce,
